@@ -39,6 +39,9 @@ def shards(tier, seed):
     for kind in ("GaussianPDF", "GaussianDiagPDF"):
         for D in BOUNDS[tier]["ctor"]["D"]:
             out.append(dict(id="C02/ctor/%s/D%d" % (kind, D), part="ctor", kind=kind, D=D, cost=1, facts=dict(kind=kind, D=D)))
+    for kind in ("GaussianMeasure", "GaussianDiagMeasure"):
+        for D in BOUNDS[tier]["ctor"]["D"]:
+            out.append(dict(id="C02/mctor/%s/D%d" % (kind, D), part="mctor", kind=kind, D=D, cost=1, facts=dict(kind=kind, D=D)))
     return out
 
 
@@ -55,6 +58,41 @@ def run_shard(shard, ctx):
     kind, D = shard["kind"], shard["D"]
     diag = "Diag" in kind
     sys_ = _graph.GaussSystem(D, seed, 0, "full", 4, dict(label="ctor", t="measure"), checks=("mass",))
+    if shard["part"] == "mctor":
+        # measures built from every combination of the optional constructor arguments, then used: mass queries, a
+        # covariance-requesting rank-one product (fast path on the GIVEN covariance), normalisation
+        for R in BOUNDS[tier]["ctor"]["R"]:
+            for vi in ([0, 100, objs.HARD] if tier == "quick" else [0, 1, 2, 100, 101, 102, objs.HARD]):
+                for mode in objs.MEASURE_MODES:
+                    if not ctx.case(dict(R=R, vi=vi, mode=mode)):
+                        continue
+                    tag = ("c02m", kind, D, R)
+                    Lam = objs.spd_batch(D, R, vi, seed, tag, diag=diag)
+                    nu = objs.vec_batch(D, R, vi, seed, tag)
+                    lnb = objs.lnb_batch(R, vi, seed, tag)
+                    facts = dict(mode=mode, R=R)
+                    model = _graph.m_measure(kind, Lam, nu, lnb)
+                    with ctx.guard("mctor.call", facts) as g:
+                        u = objs.mk_measure(kind, Lam, nu, lnb, mode=mode)
+                    if not g.ok:
+                        continue
+                    ctx.count("states")
+                    ctx.count("transitions", 3)
+                    sys_._check_mass(ctx, u, model, dict(facts, root="mctor", last_op="ctor"))
+                    with ctx.guard("mctor.product", facts) as g:
+                        # (a catalogue rank-one factor: with the HARD vector the product would leave the stated domain, cond ~1e7)
+                        f, (Lf, nf, bf) = objs.mk_factor("OneRankFactor", D, 1, 0 if vi == objs.HARD else vi, seed, tag=("c02mf",))
+                        w = objs.mk_measure(kind, Lam, nu, lnb, mode=mode).multiply(f, update_full=True)
+                    if g.ok and max(np.linalg.cond(A_) for A_ in Lam + Lf) <= 1e4:
+                        sys_._check_mass(ctx, w, _graph.m_measure("GaussianMeasure", Lam + Lf, nu + nf, lnb + bf), dict(facts, root="mctor", last_op="multiply"))
+                    elif g.ok:
+                        ctx.count("out_of_domain_states")
+                    with ctx.guard("mctor.get_density", facts) as g:
+                        d = objs.mk_measure(kind, Lam, nu, lnb, mode=mode).get_density()
+                    if g.ok:
+                        ms = [rm.nat_to_moment(Lam[r], nu[r]) for r in range(R)]
+                        sys_._check_mass(ctx, d, _graph.m_pdf_from_moments("GaussianPDF", np.array([m_[0] for m_ in ms]), np.array([m_[1] for m_ in ms])), dict(facts, root="mctor", last_op="get_density"))
+        return
     for R in BOUNDS[tier]["ctor"]["R"]:
         for vi in ([0, 1, 100, objs.HARD] if tier == "quick" else [0, 1, 2, 3, 100, 101, 102, 103, 104, 105, objs.HARD]):
             for mode in ("Sigma", "Sigma+Lambda", "Sigma+Lambda+lndet"):
